@@ -9,10 +9,10 @@ package rules
 // only have effects whose result does not depend on the iteration order.
 
 import (
-	"os"
 	"fmt"
 	"go/token"
 	"go/types"
+	"os"
 	"sort"
 	"strings"
 
@@ -100,6 +100,8 @@ func externalPure(fn *ssa.Function) bool {
 		return false
 	}
 	switch fn.Pkg.Pkg.Path() {
+	case "sync", "sync/atomic", "context":
+		return true // synchronisation primitives carry no data
 	case "strings", "unicode", "unicode/utf8", "math", "strconv", "time", "path", "path/filepath", "regexp", "cmp", "errors", "sort":
 		if fn.Pkg.Pkg.Path() == "sort" {
 			return fn.Name() == "Search"
@@ -115,6 +117,19 @@ func externalPure(fn *ssa.Function) bool {
 		}
 	case pkgDecimal:
 		return true // value-type arithmetic
+	}
+	return false
+}
+
+// externalSpawner: pool / errgroup methods that run or wait for the closures
+// handed to them and have no other effect.
+func externalSpawner(fn *ssa.Function) bool {
+	pkg := core.PkgPathOf(fn)
+	if strings.HasPrefix(pkg, "github.com/sourcegraph/conc") || pkg == "golang.org/x/sync/errgroup" {
+		switch core.BaseName(fn) {
+		case "Go", "Wait", "WithContext", "WithErrors", "WithFirstError", "WithCancelOnError", "New", "Map", "ForEach":
+			return true
+		}
 	}
 	return false
 }
@@ -1016,6 +1031,28 @@ func (oa *orderAnalysis) callEffect(r *region, call ssa.CallInstruction, res *re
 			}
 		}
 		if callee.Blocks == nil || !p.InModule(callee) {
+			// closures created here and handed to an external function (pool.Go,
+			// errgroup.Go, iter.Map ...) run as part of this iteration
+			for _, a := range args {
+				if mc, ok := core.Strip(a).(*ssa.MakeClosure); ok {
+					cfn := mc.Fn.(*ssa.Function)
+					cl := make([]vclass, len(cfn.Params))
+					for i := range cl {
+						cl[i] = clsOuter
+					}
+					sub := oa.analyseCallee(cfn, cl)
+					for _, e := range sub.effects {
+						e2 := e
+						e2.detail = e.detail + " (in a closure handed to " + shortFn(callee) + ")"
+						res.effects = append(res.effects, e2)
+					}
+					res.taints = append(res.taints, sub.taints...)
+					res.notes = append(res.notes, sub.notes...)
+					if len(sub.taints) > 0 {
+						*nonIdem = true
+					}
+				}
+			}
 			if externalPure(callee) {
 				continue
 			}
@@ -1029,17 +1066,17 @@ func (oa *orderAnalysis) callEffect(r *region, call ssa.CallInstruction, res *re
 			if !anyOuter {
 				continue
 			}
-			if callee.Blocks == nil {
-				res.effects = append(res.effects, effect{kind: "unknown-call", pos: call.Pos(), fn: r.fn, symbol: "call " + shortFn(callee),
-					detail: "external function " + shortFn(callee) + " receives shared state; its effect is not known to be order-free"})
-				continue
+			if externalSpawner(callee) {
+				continue // the closures it runs were analysed above
 			}
-			// external function with a body (dependency): analyse like a module callee
+			res.effects = append(res.effects, effect{kind: "unknown-call", pos: call.Pos(), fn: r.fn, symbol: "call " + shortFn(callee),
+				detail: "external function " + shortFn(callee) + " receives shared state; its effect is not known to be order-free"})
+			continue
 		}
 		sub := oa.analyseCallee(callee, classes)
-	if os.Getenv("KNUTLINT_TRACE") != "" && strings.Contains(r.fn.String(), os.Getenv("KNUTLINT_TRACE")) {
-		fmt.Printf("TRACE %s -> %s classes=%v effects=%d\n", r.fn, callee, classes, len(sub.effects))
-	}
+		if os.Getenv("KNUTLINT_TRACE") != "" && strings.Contains(r.fn.String(), os.Getenv("KNUTLINT_TRACE")) {
+			fmt.Printf("TRACE %s -> %s classes=%v effects=%d\n", r.fn, callee, classes, len(sub.effects))
+		}
 		for _, e := range sub.effects {
 			e2 := e
 			e2.detail = e.detail + " (via " + shortFn(callee) + ")"
@@ -1239,6 +1276,7 @@ var identityFields = map[string]string{
 	"Commodity.name": "commodities are interned by name",
 	"Day.Date":       "the builder keeps one Day per date",
 	"Node.Segment":   "siblings in a multimap node are keyed by segment",
+	"batch.path":     "one batch per parsed file; a file included twice yields two identical batches",
 	"Balance.Account+Balance.Commodity+Balance.Quantity": "a balance line is its (account, commodity, quantity)",
 }
 
